@@ -46,7 +46,33 @@ var reCloseTag = regexp.MustCompile(`^</([a-z]+)>`)
 func ruleSRTTags(p *Prog, l *Ledger, tier string) {
 	const rule = "E10.A1-srt-tags"
 	fn := anchor(p, l, rule, "parseTextSrt")
-	wr := anchor(p, l, rule, "LineItem.srtBytes")
+	// the function that writes one text run: LineItem.srtBytes, or – after a renaming – the helper of WriteToSRT that
+	// holds the tag literals
+	wr := p.Fn("LineItem.srtBytes")
+	if wr == nil {
+		if top := p.Fn("Subtitles.WriteToSRT"); top != nil {
+			for _, h := range p.Helpers(top) {
+				if fnPkg(h) != p.LibSSA || h == top {
+					continue
+				}
+				for _, b := range h.Blocks {
+					for _, ins := range b.Instrs {
+						for _, op := range ins.Operands(nil) {
+							if *op == nil {
+								continue
+							}
+							if cs, ok := constStr(*op); ok && (strings.Contains(cs, "<b>") || strings.Contains(cs, "<i>")) {
+								wr = h
+							}
+						}
+					}
+				}
+			}
+		}
+	}
+	if wr == nil {
+		wr = anchor(p, l, rule, "LineItem.srtBytes")
+	}
 	if fn == nil || wr == nil {
 		return
 	}
@@ -381,6 +407,35 @@ func ruleWebVTTSettings(p *Prog, l *Ledger, tier string) {
 		}
 		for _, b := range h.Blocks {
 			for _, ins := range b.Instrs {
+				// c = append(c, "key="...); c = append(c, value...): the key and the value appended one after the other
+				if ac, isCall := ins.(*ssa.Call); isCall && len(ac.Call.Args) == 2 && isStringT(ac.Call.Args[1].Type()) {
+					if bi, isB := ac.Call.Value.(*ssa.Builtin); isB && bi.Name() == "append" {
+						for _, r := range *ac.Referrers() {
+							c2, ok := r.(*ssa.Call)
+							if !ok || len(c2.Call.Args) != 2 || c2.Call.Args[0] != ssa.Value(ac) || !isStringT(c2.Call.Args[1].Type()) {
+								continue
+							}
+							if bi2, isB2 := c2.Call.Value.(*ssa.Builtin); !isB2 || bi2.Name() != "append" {
+								continue
+							}
+							for _, inst := range p.instantiate(wr, h, []ssa.Value{ac.Call.Args[1], c2.Call.Args[1]}) {
+								k, ok := constStr(inst[0])
+								if !ok || len(k) < 2 {
+									continue
+								}
+								sep := k[len(k)-1:]
+								if sep != ":" && sep != "=" {
+									continue
+								}
+								fs := strset{}
+								for _, v := range inst[1:] {
+									traceFieldOrGetter(v, fs)
+								}
+								note(sep, k[:len(k)-1], fs)
+							}
+						}
+					}
+				}
 				bo, ok := ins.(*ssa.BinOp)
 				if !ok || bo.Op != token.ADD || !isStringT(bo.Type()) {
 					continue
@@ -412,6 +467,56 @@ func ruleWebVTTSettings(p *Prog, l *Ledger, tier string) {
 							fs := strset{}
 							traceFieldOrGetter(inst[0], fs)
 							note(sep, c[:len(c)-1], fs)
+						}
+					} else if g, _, nameCell, isCell := tableCell(parts[j-1]); j > 0 && isCell {
+						// row.name + ":" + value, the rows being a package-level table of (name, getter)
+						rows, okRows := p.globalRowValues(g)
+						if !okRows {
+							continue
+						}
+						for _, row := range rows {
+							k, ok := constStr(row[nameCell])
+							if !ok {
+								continue
+							}
+							fs := strset{}
+							hasGetter := false
+							for ci, cv := range row {
+								if ci == nameCell || cv == nil {
+									continue
+								}
+								switch cv.(type) {
+								case *ssa.Function, *ssa.MakeClosure:
+									hasGetter = true
+									traceFieldOrGetter(cv, fs)
+								}
+							}
+							if !hasGetter {
+								// a row without getter: the value comes from the writer itself; what it traces to
+								// outside the calls of the getters
+								var leaves func(v ssa.Value, seen map[ssa.Value]bool)
+								leaves = func(v ssa.Value, seen map[ssa.Value]bool) {
+									if seen[v] {
+										return
+									}
+									seen[v] = true
+									switch x := v.(type) {
+									case *ssa.Phi:
+										for _, e := range x.Edges {
+											leaves(e, seen)
+										}
+									case *ssa.Call:
+										if x.Call.StaticCallee() == nil {
+											return
+										}
+										traceField(x, "", map[ssa.Value]bool{}, fs)
+									default:
+										traceField(v, "", map[ssa.Value]bool{}, fs)
+									}
+								}
+								leaves(val, map[ssa.Value]bool{})
+							}
+							note(sep, k, fs)
 						}
 					} else if j > 0 {
 						// key + ":" + value
